@@ -372,6 +372,82 @@ BOND_TIE_KEY = 'canon-differs:bond-order-tie'
 BOND_TIE_REPLAY = ("from chython import smiles; a=smiles('C1=CC=C1'); b=smiles('C=1C=CC=1'); print(str(a), str(b), a == b, hash(a) == hash(b))")
 
 
+# isotope-labelled twins: ONE of two (or more) otherwise symmetry-equivalent atoms carries an isotope label; the labels run over the
+# element's most common isotope and its neighbours (own table, not the library's), so that every way of encoding the isotope in the
+# atom invariant (raw number, shift against a reference isotope, truthiness) has a member where the encoded value is 0 / collides
+COMMON_ISOTOPE = {'H': 1, 'C': 12, 'N': 14, 'O': 16, 'F': 19, 'S': 32, 'Cl': 35, 'Br': 79, 'Na': 23, 'P': 31, 'Si': 28, 'B': 11}
+TWIN_TEMPLATES = [('[{i}CH3]OC', 'C'), ('[{i}CH3]C(C)C', 'C'), ('[{i}NH2]CCN', 'N'), ('[{i}Cl]CCl', 'Cl'), ('[{i}OH]CCO', 'O'), ('[{i}SH]CCS', 'S'),
+                  ('[{i}Br]CBr', 'Br'), ('[{i}F]C(F)F', 'F'), ('c1cccc[{i}cH]1', 'C'), ('[{i}Na+].[Na+].[O-]C(=O)C(=O)[O-]', 'Na'), ('[{i}H]O[H]', 'H'),
+                  ('[{i}PH2]CCP', 'P'), ('C[{i}SiH2]O[SiH2]C', 'Si'), ('O[{i}B](O)OB(O)O', 'B'), ('[{i}CH3][N+](C)(C)C', 'C'), ('C1C[{i}CH2]1', 'C'),
+                  ('[{i}NH2]c1ccc(N)cc1', 'N'), ('[{i}O-]C(C)=O', 'O'), ('[{i}CH3]C.CC', 'C'), ('[{i}OH2].O', 'O')]
+
+
+def isotope_twins(rng, count):
+    out = []
+    for t, el in TWIN_TEMPLATES:
+        a0 = COMMON_ISOTOPE[el]
+        out.append(t.format(i=a0))                      # the most common isotope itself, always
+    while len(out) < count:
+        t, el = rng.choice(TWIN_TEMPLATES)
+        iso = COMMON_ISOTOPE[el] + rng.choice([-1, 1, 1, 2, 3])
+        x = t.format(i=iso)
+        if x not in out and iso > 0:
+            out.append(x)
+    return out[:count]
+
+
+def lattice_flake(a, b, rng, hetero=True):
+    """a 2D-fused polycyclic ring system: an a x b patch of the hexagonal lattice (brick-wall construction, dangling atoms trimmed), all
+    single bonds, built through the public API with random atom numbers and bond insertion order; `hetero` puts one hetero atom on a
+    three-connected and one on a two-connected position plus one substituent, which makes every atom constitutionally distinct.  Any
+    depth-first spelling of such a system has to keep many ring closures open at the same time (>= 10 from 3 x 4 on)"""
+    from chython import MoleculeContainer
+    V = {(r, c) for r in range(a + 1) for c in range(2 * b + 2)}
+    E = set()
+    for (r, c) in V:
+        if (r, c + 1) in V:
+            E.add(((r, c), (r, c + 1)))
+        if (r + c) % 2 == 0 and (r + 1, c) in V:
+            E.add(((r, c), (r + 1, c)))
+    while True:
+        deg = {v: 0 for v in V}
+        for x, y in E:
+            deg[x] += 1
+            deg[y] += 1
+        dead = {v for v, d in deg.items() if d < 2}
+        if not dead:
+            break
+        V -= dead
+        E = {(x, y) for x, y in E if x not in dead and y not in dead}
+    order = sorted(V)
+    rng.shuffle(order)
+    num = {v: i + 1 for i, v in enumerate(order)}
+    el = {v: 'C' for v in V}
+    three = [v for v in order if deg[v] == 3]
+    two = [v for v in order if deg[v] == 2]
+    if hetero:
+        el[rng.choice(three)] = rng.choice(['N', 'B', 'Si'])
+        el[rng.choice(two)] = rng.choice(['O', 'S', 'N'])
+    m = MoleculeContainer()
+    with m:
+        for v in order:
+            m.add_atom(el[v], num[v])
+        bl = sorted(E)
+        rng.shuffle(bl)
+        for x, y in bl:
+            m.add_bond(num[x], num[y], 1)
+        if hetero:
+            v = rng.choice([t for t in two if el[t] == 'C'])
+            m.add_atom(rng.choice(['F', 'Cl', 'C', 'O']), len(V) + 1)
+            m.add_bond(num[v], len(V) + 1, 1)
+    return m
+
+
+def max_closure(s):
+    """largest two-digit ring-closure number of a SMILES string (0 when none)"""
+    import re
+    return max([int(x) for x in re.findall(r'%(\d\d)', s)] or [0])
+
 # genuine defect of the pinned code (reported by an independent engineer, /repo frozen): components that are NOT isomorphic but whose atoms
 # are pairwise Weisfeiler-Lehman equivalent (disjoint regular rings of different size with one repeating unit: C3 + C6, 12-crown-4 +
 # 18-crown-6, S6 + S8, D3 + D4 cyclosiloxanes) get the same Morgan classes - `_morgan` has no component-level information, Element.__hash__
@@ -915,6 +991,51 @@ def search(ck, seeds=None):
             S.compare('components-swapped', smi, m, _sm(sw), {'swapped': sw},
                       f"from chython import smiles; print(str(smiles({smi!r}))); print(str(smiles({sw!r})))")
         S.one(smi, rng, n_renum=6, n_spell=3, n_rdkit=2)
+    # isotope-labelled twins (the common isotope of the element included): the label must separate the twins in every description
+    for smi in isotope_twins(random.Random(f'{ck.seed}:c01-twins'), 36 if quick else 200):
+        try:
+            m = _sm(smi)
+        except Exception:
+            ck.count('search:unparsable')
+            continue
+        S.ck.charge_tie = charge_hash_collision(m)
+        nums = list(m._atoms)
+        f = dict(zip(nums, reversed(nums)))
+        m2 = m.copy()
+        m2.remap(f)
+        S.compare('renumber-reversed', smi, m, m2, {'mapping': f},
+                  f"from chython import smiles; m=smiles({smi!r}); a=str(m); m.remap({f!r}); print(a); print(str(m))")
+        S.one(smi, rng, n_renum=3, n_spell=2, n_rdkit=1)
+    # 2D-fused polycyclic lattices (generated through the API): many ring closures open at the same time, two-digit closure numbers
+    big = 0
+    frng = random.Random(f'{ck.seed}:c01-flakes')
+    for a, b_ in ([(3, 3), (3, 4), (4, 4), (4, 5)] if quick else [(3, 3), (3, 4), (4, 4), (4, 5), (5, 5), (3, 6), (4, 4), (4, 6), (5, 6), (6, 6)]):
+        for hetero in (True, False):
+            m = lattice_flake(a, b_, frng, hetero)
+            label = f'hexagonal lattice {a}x{b_}' + (' with hetero atoms ' if hetero else ' ') + format(m, 'h')
+            S.ck.charge_tie = False
+            ck.case(('search-flake', a, b_, hetero, tuple(m._atoms)), nontrivial=True)
+            detail = {'atoms': {n: at.atomic_symbol for n, at in m.atoms()}, 'bonds': [(n, k, int(bd)) for n, k, bd in m.bonds()]}
+            canon = str(m)
+            top = max_closure(canon)
+            S.written_oracle(label, m, rng, n_root=0)
+            for _ in range(2):
+                m2 = corpus.renumber(m, rng)
+                S.compare('renumber-generated', label, m, m2, dict(detail, mapping=dict(zip(m._atoms, m2._atoms))))
+            for r in rng.sample(list(m._atoms), 3):          # spellings of the library's writer from three start atoms
+                sp, _ = rooted_spelling(m, r, rng)
+                top = max(top, max_closure(sp))
+                try:
+                    back = _sm(sp)
+                except Exception as e:
+                    ck.counterexample(f'written-unreadable:{label[:60]}', 'a SMILES written by the library is not readable by the library',
+                                      dict(detail, written=sp), repr(e), 'a molecule', 'reader')
+                    continue
+                S.compare('reread-rooted', label, m, back, dict(detail, written=sp))
+            ck.count(f'search:flake:max-closure-number>={min(top // 5 * 5, 15)}')
+            big += top >= 10
+    if not big:
+        ck.unchecked('2D-fused lattice family', 'no member needed a ring-closure number >= 10')
     for smi in ('C1CC1.C1CC1', 'C1CCCCC1.CCCCCC', 'C1CC1.C1CC1C', 'CCO.CCCO', 'c1ccccc1.C1CCCCC1'):
         if wl_equivalent_components(_sm(smi)):
             ck.unchecked('WL-equivalent components classifier', f'{smi} is wrongly classified (isomorphic or WL-distinguishable components)')
@@ -1617,7 +1738,7 @@ def correspondence(ck):
             pass
     hc_first = hc_first[:8 if quick else 40]
     hc = hc_first + [x for x in hc_all if x not in hc_first][:14 if quick else 60]
-    pool = hc + WL_COMPONENTS[:8] + SPECIAL + GAP_EXAMPLES + LONG + ALLENES[:4] + COORD + CHARGE_TIE + corpus.sample(corpus.lipo(), 100 if quick else 500, ck.seed, 'c01-corr')
+    pool = hc + WL_COMPONENTS[:8] + isotope_twins(random.Random(f'{ck.seed}:c01-twins-corr'), 26 if quick else 80) + SPECIAL + GAP_EXAMPLES + LONG + ALLENES[:4] + COORD + CHARGE_TIE + corpus.sample(corpus.lipo(), 100 if quick else 500, ck.seed, 'c01-corr')
     mols = []
     for smi in pool:
         try:
@@ -1627,6 +1748,24 @@ def correspondence(ck):
         mols.append((smi, m))
     for m in small_molecules(rng, 120 if quick else 600):
         mols.append((format(m, 'h'), m))
+    # 2D-fused lattices: Morgan on many fused rings; one of them through the whole writer model (two-digit closure numbers)
+    frng = random.Random(f'{ck.seed}:c01-flakes-corr')
+    big_writer = set()
+    for a, b_, hetero in ((3, 4, True), (4, 4, True), (3, 3, False)) if quick else ((3, 4, True), (4, 4, True), (3, 3, False), (4, 5, True), (5, 5, True)):
+        fm = lattice_flake(a, b_, frng, hetero)
+        lab = format(fm, 'h')
+        mols.append((lab, fm))
+    # the whole writer model on a lattice whose canonical string needs a closure number >= 10 (the smallest such among a few candidates)
+    for a, b_ in ((3, 4), (3, 4), (3, 4), (3, 4), (4, 4), (4, 4)):
+        fm = lattice_flake(a, b_, frng, True)
+        if max_closure(str(fm)) >= 10:
+            lab = format(fm, 'h')
+            mols.append((lab, fm))
+            big_writer.add(lab)
+            ck.count(f'corr:writer-full:lattice:max-closure-number={max_closure(str(fm))}')
+            break
+    else:
+        ck.count('corr:writer-full:lattice:no-two-digit-closure')
     with MorganSpy() as spy:
         for c, mt in raw_dict_cases(spy, rng, 400 if quick else 2500):
             cases.append(c)
@@ -1674,7 +1813,7 @@ def correspondence(ck):
                     ck.case(('corr-wk', smi, how, tuple(order[:2])), nontrivial=len(v) > 2)
                     ck.count('corr:writer-keys')
             # the whole writer model (canonical string + order) on small molecules
-            if 0 < len(m) <= 24 and n_writer < (80 if quick else 330):
+            if (0 < len(m) <= 24 and n_writer < (80 if quick else 330)) or smi in big_writer:
                 n_writer += 1
                 if any(a.stereo is not None and not a.implicit_hydrogens and any(m._atoms[x].atomic_number == 1 for x in m._bonds[n]) for n, a in m.atoms()):
                     ck.count('corr:writer-full:centre-with-explicit-H' + (':written-first' if m._atoms[m.smiles_atoms_order[0]].stereo is not None else ''))
